@@ -17,6 +17,13 @@ G  every TLC-enumerated document, with the relations the model demands, is concr
    parent NODE of every section / list / preformatted block) says that sections are nested in sections and in nothing
    else.  Universe QO (TO): unbalanced openers ('' ''' <span> <div> {|) left open before the next line -- outside
    the property, the machine's relations are the expectation, DRIFT only.
+   Universe QSP (TSP thorough; round 8): constructs that SPAN LINES -- a list / paragraph / indented line opens <pre>,
+   <div>, <span> or <ref> after its word, the closer stands on a LATER line (closer first or word first, with or without
+   a continuation line in between), followed by every sequence of <= 2 (3) ordinary structure lines.  Whatever happens
+   to the construct itself is outside the statement (the statement accepts both readings: it ends / it continues the
+   list item it was opened in; the machine's relations are the exact expectation, DRIFT); the lines AFTER the closer
+   are ordinary lines: their sections / items are statement-backed.  The machine's persistent MODE (pre_parse, the
+   begline counter) obeys the law "all constructs closed => initial mode" (ModeOK, every universe).
 V  seeded random longer documents (<= 10 headings, <= 12 list lines, depth <= 4, rules,
    paragraphs, blanks, fillers) are parsed by the real code, the extracted relations are
    recorded and validated by TLC against ParserRef (Trace_ParserRef).
@@ -96,6 +103,22 @@ BLOCK = [
 NONE = ""
 
 
+# constructs that span lines (ParserRefDoc!SpanKinds): opener after the word of a list / paragraph / indented line
+# (field o), closer on a later line of type C (b: the closer stands first)
+SPANS = {"PRE": ("<pre>", "</pre>"), "DIV": ("<div>", "</div>"), "SPAN": ("<span>", "</span>"), "REF": ("<ref>", "</ref>")}
+
+
+def span_open(ln) -> str:
+    return " " + SPANS[ln["o"]][0] + "x" if "o" in ln else ""
+
+
+def span_line(ln, w) -> str:
+    """The spelling of a continuation (X) / closer (C) line."""
+    if ln["t"] == "X":
+        return w
+    return SPANS[ln["c"]][1] + " " + w if ln["b"] else w + SPANS[ln["c"]][1]
+
+
 def spell(doc, fill) -> str:
     """doc: list of line records; fill: {line index (0-based): (filler, before?)}."""
     out = []
@@ -103,7 +126,11 @@ def spell(doc, fill) -> str:
         w = f"w{i + 1}"
         f, before, *inline = fill.get(i, (NONE, False))
         t = ln["t"]
-        if t in ("H", "L"):
+        if t in ("X", "C"):
+            out.append(span_line(ln, w))
+        elif "o" in ln:
+            out.append({"L": "".join(ln.get("p", ())) + " ", "P": "", "I": " "}[t] + w + span_open(ln))
+        elif t in ("H", "L"):
             body = w if not f else (f"{f} {w}" if before else f"{w} {f}")
             if t == "H":
                 out.append("=" * ln["l"] + " " + body + " " + "=" * ln["l"])
@@ -137,8 +164,9 @@ def spell_plain(doc) -> str:
         t = ln["t"]
         out.append(
             "=" * ln["l"] + w + "=" * ln["l"] if t == "H"
-            else "".join(ln["p"]) + " " + w if t == "L"
-            else w if t == "P" else " " + w if t == "I" else OPENERS[ln["c"]] + w if t == "O"
+            else "".join(ln["p"]) + " " + w + span_open(ln) if t == "L"
+            else w + span_open(ln) if t == "P" else " " + w + span_open(ln) if t == "I" else OPENERS[ln["c"]] + w if t == "O"
+            else span_line(ln, w) if t in ("X", "C")
             else "----" if t == "R" else ""
         )
     return "\n".join(out) + "\n"
@@ -257,7 +285,8 @@ def random_filler(rng, depth):
 
 
 def slots(doc):
-    return [i for i, ln in enumerate(doc) if ln["t"] in ("H", "L", "P", "I")]
+    """Lines that may carry a catalogue filler (the lines of a spanning construct carry none)."""
+    return [i for i, ln in enumerate(doc) if ln["t"] in ("H", "L", "P", "I") and "o" not in ln]
 
 
 def pick(rng, ln):
@@ -274,7 +303,8 @@ def pick(rng, ln):
 WORD_RE = re.compile(r"\bw(\d+)\b")
 LEVELS = {"LEVEL1", "LEVEL2", "LEVEL3", "LEVEL4", "LEVEL5", "LEVEL6"}
 NOOWN = {"k": "-", "w": "-", "m": []}
-WORDED = ("H", "L", "P", "I", "O")      # line types that carry a marker word (ParserRef!Worded)
+WORDED = ("H", "L", "P", "I", "O", "X", "C")      # line types that carry a marker word (ParserRef!Worded)
+PARALIKE = ("P", "O", "X", "C")                   # ... whose word is plain content of the open section (ParserRef!ParaLike)
 
 
 def rule_parents(root) -> list:
@@ -337,7 +367,7 @@ def relations(root, doc) -> dict:
             own.append({"k": "BAD", "w": "-", "m": []}); sec.append(0); item.append(0); lst.append(0)
             continue
         e = c[-1]
-        if t in ("P", "O"):
+        if t in PARALIKE:
             own.append(dict(NOOWN))
         else:
             m = list(e[2]) if e[1] in ("LIST", "LIST_ITEM") else ([e[2]] if e[2] else [])
@@ -380,8 +410,9 @@ def core(rel, doc):
 def line_text(ln, i):
     w = f"w{i + 1}"
     t = ln["t"]
-    return ("=" * ln["l"] + " " + w + " " + "=" * ln["l"] if t == "H" else "".join(ln["p"]) + " " + w if t == "L"
-            else " " + w if t == "I" else OPENERS[ln["c"]] + w if t == "O" else w if t == "P" else "----" if t == "R" else "")
+    return ("=" * ln["l"] + " " + w + " " + "=" * ln["l"] if t == "H" else "".join(ln["p"]) + " " + w + span_open(ln) if t == "L"
+            else " " + w + span_open(ln) if t == "I" else OPENERS[ln["c"]] + w if t == "O" else w + span_open(ln) if t == "P"
+            else span_line(ln, w) if t in ("X", "C") else "----" if t == "R" else "")
 
 
 def par_why(doc, exp, got, text="") -> str:
@@ -405,7 +436,8 @@ def par_why(doc, exp, got, text="") -> str:
             prev = doc[i - 1]["t"] if i else "-"
             prevd = {"I": "an indented line (an open preformatted block)", "L": "a list line (an open list item)",
                      "O": "a line that leaves a construct open", "P": "a paragraph line", "H": "a heading line",
-                     "R": "a rule", "B": "a blank line", "-": "nothing"}[prev]
+                     "R": "a rule", "B": "a blank line", "-": "nothing", "X": "a line inside a construct that spans lines",
+                     "C": "the line that closes a construct that spans lines"}[prev]
         what = {"H": f"the section node of heading line {i + 1} ({line_text(ln, i)!r})",
                 "L": f"the list of list line {i + 1} ({line_text(ln, i)!r})",
                 "I": f"the preformatted block of indented line {i + 1}",
@@ -470,6 +502,8 @@ def judge(o: Outcome, case, name, text, rel, err, origin):
     if rel == exp:
         return True
     doc = case["doc"]
+    if case.get("span"):
+        return judge_span(o, case, name, text, rel, origin)
     if case.get("ext"):
         # a document with an unbalanced opener: the expectation is the machine's, not the statement's
         o.note_drift({"origin": origin, "text": text, "doc": doc, "machine_relations": exp, "real_relations": rel,
@@ -499,6 +533,62 @@ def judge(o: Outcome, case, name, text, rel, err, origin):
     else:
         o.violation(c, why, cls=origin + ":" + cls)
     return False
+
+
+def judge_span(o: Outcome, case, name, text, rel, origin):
+    """A document with a construct that spans lines: `rel` differs from the machine's relations.  The statement accepts
+    both readings of the construct (case["acc"]); inside them it is DRIFT."""
+    doc, exp = case["doc"], case["rel"]
+    crel = core(rel, doc)
+    cacc = [core(a, doc) for a in case["acc"]]
+    if crel in cacc:
+        cls = diff_class(exp, rel)
+        o.note_drift({"origin": origin, "text": text, "doc": doc, "differs_in": cls, "expected": exp[cls], "got": rel[cls],
+                      "note": "a construct that spans lines: the model machine reads it differently; both readings are "
+                              "within the statement" + (par_why(doc, exp, rel, text) if cls == "par" else "")})
+        return False
+    cexp = core(exp, doc) if core(exp, doc) in cacc else cacc[0]
+    cls = diff_class(cexp, crel)
+    c = {"origin": origin, "variant": name, "text": text, "doc": doc, "expected": exp, "accepted": case["acc"], "got": rel,
+         "differs_in": cls}
+    why = (f"parse({text!r}): relation '{cls}' extracted from the real tree is {crel[cls]!r}; "
+           f"the nesting model demands {cexp[cls]!r}")
+    if cls == "par":
+        why += par_why(doc, cexp, crel, text)
+    o.violation(c, why + span_why(doc, rel, case.get("mode")), cls=origin + ":span:" + cls)
+    return False
+
+
+def span_why(doc, rel, mode) -> str:
+    """Names the spanning construct, the first ordinary line after its closer that lost its node, and (mode: decided by
+    TLC, Trace_ParserRef) whether the observed relations are those of the machine with PreModeLeftOnStrayEnd."""
+    i = next((k for k, ln in enumerate(doc) if "o" in ln), None)
+    if i is None:
+        return ""
+    j = next((k for k in range(i + 1, len(doc)) if doc[k]["t"] == "C"), None)
+    if j is None:
+        return ""
+    kind = doc[i]["o"]
+    where = {"L": "a list item", "P": "a paragraph", "I": "an indented line"}[doc[i]["t"]]
+    lost = [k for k in range(j + 1, len(doc)) if doc[k]["t"] in ("H", "L")
+            and rel["own"][k].get("k") not in (LEVELS | {"LIST_ITEM"})]
+    msg = (f" -- line {i + 1} ({line_text(doc[i], i)!r}) opens {SPANS[kind][0]} inside {where}, it is closed on line {j + 1} "
+           f"({line_text(doc[j], j)!r}): a balanced filler that spans lines; the lines after the closer are ordinary "
+           f"lines, the parser must be back in its initial mode there (pre_parse off, line-start handling on) whatever "
+           f"closed the construct's node")
+    if lost:
+        k = lost[0]
+        msg += (f"; {'heading' if doc[k]['t'] == 'H' else 'list'} line {k + 1} ({line_text(doc[k], k)!r}) and "
+                f"{len(lost) - 1} more structure line(s) after the closer did not become a "
+                f"{'section' if doc[k]['t'] == 'H' else 'list item'} node (plain text)")
+    if mode:
+        msg += ("; TLC: the observed relations are exactly those of the model machine whose </pre> leaves the "
+                "non-interpreting mode only together with a PRE node on top of the stack (deviation PreModeLeftOnStrayEnd: "
+                "the PRE node was closed with the list item at the start of the next line, ctx.pre_parse stays set for "
+                "the rest of the document)")
+    elif mode is not None:
+        msg += "; TLC: not explained by the model deviation PreModeLeftOnStrayEnd"
+    return msg
 
 
 def struct_why(sdoc, flag) -> str:
@@ -568,6 +658,8 @@ def diagnose(o: Outcome, cases, results, cap=400):
             cases[idx]["flag"] = bool(b["flag"])
         if b["nest"]:
             cases[idx].setdefault("nest_rels", []).append(rel)
+        if cases[idx].get("span"):
+            cases[idx].setdefault("mode_rels", {})[common.json_key(rel)] = bool(b["mode"])
 
 
 def run_g(o: Outcome, cfgs, n_random, tier):
@@ -596,7 +688,8 @@ def run_g(o: Outcome, cfgs, n_random, tier):
         else:
             # (a document with an unbalanced opener is parsed as the machine's token sequence spells it: a filler
             # would interact with the open construct)
-            work.append((idx, c["doc"], variants_for(rng, c["doc"], 0 if c.get("ext") else n_random, c["allf"]), not c["allf"]))
+            work.append((idx, c["doc"], variants_for(rng, c["doc"], 0 if c.get("ext") else n_random, c["allf"]),
+                         not c["allf"] and "tree" in c))
     results = pmap(run_chunk, work)
     diagnose(o, cases, results)
     o.extra["structured_filler_shapes"] = dict(sorted(shapes.items()))
@@ -604,6 +697,8 @@ def run_g(o: Outcome, cfgs, n_random, tier):
     for idx, name, text, rel, err, tree in results:
         c = cases[idx]
         c["nest"] = rel is not None and rel in c.get("nest_rels", ())
+        if c.get("span"):
+            c["mode"] = c.get("mode_rels", {}).get(common.json_key(rel)) if rel is not None else None
         ok = judge(o, c, name, text, rel, err, "G")
         o.shape(("rel", common.json_key(c["rel"])))
         if tree is not None and ok:
@@ -669,6 +764,20 @@ def random_doc(rng):
     return doc
 
 
+def add_span(rng, doc):
+    """One construct that spans lines: a random list / paragraph / indented line opens it, 0-2 continuation lines and
+    the closer line follow it directly."""
+    cand = [i for i, ln in enumerate(doc) if ln["t"] in ("L", "P", "I")]
+    if not cand:
+        return doc
+    i = rng.choice(cand)
+    kind = rng.choice(sorted(SPANS))
+    doc = [dict(ln) for ln in doc]
+    doc[i]["o"] = kind
+    doc[i + 1:i + 1] = [{"t": "X"}] * rng.choice((0, 0, 1, 2)) + [{"t": "C", "c": kind, "b": rng.random() < 0.4}]
+    return doc
+
+
 def run_v_chunk(chunk):
     common.use_repo()
     res = []
@@ -702,6 +811,8 @@ def run_v(o: Outcome, n):
         doc = random_doc(rng)
         if not doc:
             doc = [{"t": "P"}]
+        if rng.random() < 0.25:
+            doc = add_span(rng, doc)
         fill = {i: pick(rng, doc[i]) for i in slots(doc) if rng.random() < 0.5}
         if rng.random() < 0.35:
             # one or two lines carry a random STRUCTURED filler (nesting depth <= 3, may span lines) after their word;
@@ -737,7 +848,8 @@ def run_v(o: Outcome, n):
             j = p[b["i"] - 1]
             idx = index[j]
             _, doc, text = items[idx]
-            case = {"doc": doc, "rel": b["expected"], "asis": batch[j]["obs"] if b["asis"] else None, "nest": bool(b["nest"])}
+            case = {"doc": doc, "rel": b["expected"], "asis": batch[j]["obs"] if b["asis"] else None, "nest": bool(b["nest"]),
+                    "acc": b["acc"], "mode": bool(b["mode"])}
             if any("s" in ln for ln in doc):
                 case["sdoc"], case["flag"] = doc, bool(b["flag"])
             judge_v(o, case, text, batch[j]["obs"])
@@ -750,6 +862,9 @@ def run_v(o: Outcome, n):
 def judge_v(o, case, text, rel):
     exp, doc = case["rel"], case["doc"]
     pdoc = [{k: v for k, v in ln.items() if k not in ("s", "z")} for ln in doc]
+    if any("o" in ln for ln in pdoc):
+        judge_span(o, dict(case, doc=pdoc), "V", text, rel, "V")
+        return
     cexp, crel = core(exp, pdoc), core(rel, pdoc)
     if cexp == crel:
         cls = diff_class(exp, rel)
@@ -788,7 +903,12 @@ def run(tier: str) -> int:
               "TLC (outer construct T/A/L x inner construct T/A/L/E, single- or multi-line, x every body of <= 2 (3) elements "
               "over {inner construct, word, newline, newline+list marker, newline+blank, argument separator}, depth 3 in S3; "
               "S1 = every filler in 10 document frames, S2 = 12 representative fillers in every document of <= 3 lines), "
-              "spelled piece by piece; V also puts random structured fillers (depth <= 3) into 35 % of its documents. "
+              "spelled piece by piece; Universe SP (SP3 thorough): constructs that span lines - {none, H2, *} . opener line (*, **, #, "
+              "paragraph, indented x <pre>, <div>, <span>, <ref> opened after the word) . {no, one} continuation line . closer "
+              "line (closer first / word first) . every sequence of <= 2 (3) lines over {H2, H3, *, **, (#,) rule, paragraph}; "
+              "expectation = the machine's relations, the statement accepts both readings of the construct (RefAccept), the "
+              "machine's persistent mode obeys ModeOK; V puts one such construct (0-2 continuation lines) into 25 % of its "
+              "documents; V also puts random structured fillers (depth <= 3) into 35 % of its documents. "
               "distinct_nontrivial counts distinct relation records (own, sec, item, "
               "lst, counts) demanded / observed.")
     o.assumptions = [
@@ -799,20 +919,28 @@ def run(tier: str) -> int:
         "inline fillers stand after (or, where that does not change the construct, before) the marker word; "
         "block fillers only next to paragraph words",
         "relations are read off the real tree from parent chains of the marker words (harness/parsetree.word_paths)",
+        "a construct that spans lines (<pre>, <div>, <span>, <ref> opened after the word of a list / paragraph / indented line, "
+        "closed on a later line) is one balanced filler; its own lines carry no catalogue filler; whether it continues or ends "
+        "the list item it was opened in is outside the statement (both readings accepted, the machine's is the DRIFT "
+        "expectation); every line after the closer is an ordinary line (statement-backed as everywhere else)",
         "structured fillers stand after the marker word; inside them only words, blanks, newlines, * / # at a line start, "
         "the argument separator and further constructs occur (no rule, heading or table syntax); links are not nested in links",
     ]
     if thorough:
         cfgs = ["Gen_ParserRef_TH.cfg", "Gen_ParserRef_TL.cfg", "Gen_ParserRef_TM.cfg", "Gen_ParserRef_TM6.cfg", "Gen_ParserRef_QM.cfg",
                 "Gen_ParserRef_QF.cfg", "Gen_ParserRef_QS1.cfg", "Gen_ParserRef_QS2.cfg", "Gen_ParserRef_TS3.cfg",
-                "Gen_ParserRef_QI.cfg", "Gen_ParserRef_TI.cfg", "Gen_ParserRef_TI5.cfg", "Gen_ParserRef_QFI.cfg", "Gen_ParserRef_TO.cfg"]
+                "Gen_ParserRef_QI.cfg", "Gen_ParserRef_TI.cfg", "Gen_ParserRef_TI5.cfg", "Gen_ParserRef_QFI.cfg", "Gen_ParserRef_TO.cfg",
+                "Gen_ParserRef_TSP.cfg"]
     else:
         cfgs = ["Gen_ParserRef_QH.cfg", "Gen_ParserRef_QL.cfg", "Gen_ParserRef_QM.cfg", "Gen_ParserRef_QF.cfg",
                 "Gen_ParserRef_QS1.cfg", "Gen_ParserRef_QS2.cfg",
-                "Gen_ParserRef_QI.cfg", "Gen_ParserRef_QFI.cfg", "Gen_ParserRef_QO.cfg"]
+                "Gen_ParserRef_QI.cfg", "Gen_ParserRef_QFI.cfg", "Gen_ParserRef_QO.cfg", "Gen_ParserRef_QSP.cfg"]
     # the Demo for the structured fillers (runs beside G): TLC itself finds a counterexample on a machine whose
     # begline switch does not count its nesting
-    with ThreadPoolExecutor(2) as ex:
+    with ThreadPoolExecutor(3) as ex:
+        # the Demo for the constructs that span lines: TLC itself finds a balanced document ('* w1 <pre>x' / 'w2</pre>')
+        # after which a machine whose </pre> clears pre mode only together with a PRE node is not in its initial mode
+        demo3 = ex.submit(tlc, "Gen_ParserRef", "Demo_ParserRef_premode.cfg", workers=1, check=False)
         demo = ex.submit(tlc, "Gen_ParserRef", "Demo_ParserRef_begline.cfg", workers=1, check=False)
         # the Demo for the open-block dimension: TLC itself finds a counterexample (an indented line directly before the
         # first heading) on a machine whose heading loop pops only while a section is open
@@ -820,6 +948,7 @@ def run(tier: str) -> int:
         run_g(o, cfgs, 2 if thorough else 1, tier)
         rb = demo.result()
         rn = demo2.result()
+        rm = demo3.result()
     o.exhaustive = True
     # the Demo: TLC itself finds the rule/LEVEL1 counterexample on the as-is machine
     r = tlc("Gen_ParserRef", "Demo_ParserRef_hline.cfg", workers=1, check=False)
@@ -832,6 +961,9 @@ def run(tier: str) -> int:
     o.extra["demo_firsthead_counterexample_found"] = "NestOK" in rn.invariant_violated
     if "NestOK" not in rn.invariant_violated:
         raise common.TLCError("Demo_ParserRef_firsthead did not produce the expected counterexample")
+    o.extra["demo_premode_counterexample_found"] = "ModeLawDev" in rm.invariant_violated
+    if "ModeLawDev" not in rm.invariant_violated:
+        raise common.TLCError("Demo_ParserRef_premode did not produce the expected counterexample")
     run_v(o, 60000 if thorough else 4000)
     return o.finish()
 
@@ -882,7 +1014,20 @@ def selftest() -> int:
         obs["par"][1] = "PREFORMATTED"
         _, bad1 = validate_batch([{"doc": idoc, "obs": obs}])
         nest = [len(bad0), len(bad1), bool(bad1 and bad1[0]["nest"])]
+        # a construct that spans lines: the list item after the closer is recorded as plain text -> rejected, outside both
+        # readings the statement accepts
+        pdoc = [{"t": "H", "l": 2}, {"t": "L", "p": ["*"], "o": "PRE"}, {"t": "C", "c": "PRE", "b": False},
+                {"t": "L", "p": ["*"]}, {"t": "H", "l": 3}]
+        root, err, _ = pt.parse(ctx, spell(pdoc, {}))
+        rel = relations(root, pdoc)
+        _, bad0 = validate_batch([{"doc": pdoc, "obs": rel}])
+        obs = json.loads(json.dumps(rel))
+        obs["own"][3] = dict(NOOWN)
+        obs["nitem"] -= 1
+        _, bad1 = validate_batch([{"doc": pdoc, "obs": obs}])
+        span = [len(bad0), len(bad1), bool(bad1 and all(core(a, pdoc) != core(obs, pdoc) for a in bad1[0]["acc"]))]
         ctx.close_db_conn()
     print("bad counts (intact, corrupted; plain, structured):", bad_counts, "; open block before the first heading "
-          "(intact, corrupted parent, recognised as TitleLoopNeedsSection):", nest)
-    return 0 if bad_counts == [0, 1, 0, 1] and nest == [0, 1, True] else 1
+          "(intact, corrupted parent, recognised as TitleLoopNeedsSection):", nest, "; construct that spans lines "
+          "(intact, item after the closer lost, outside both accepted readings):", span)
+    return 0 if bad_counts == [0, 1, 0, 1] and nest == [0, 1, True] and span == [0, 1, True] else 1
